@@ -38,7 +38,8 @@ ASSUMPTIONS = [
     'dict_value: the update-unmodified clause is checked per update only when a '
     'single update hits the variable (later updates legitimately edit states '
     'added earlier)',
-    'unit magnitudes compared with relative tolerance 1e-12',
+    'unit magnitudes compared with relative tolerance 1e-12 (relative to the '
+    'largest converted term when the terms cancel)',
 ]
 
 PATHS = [['a'], ['b'], ['t', 'a'], ['t', 'b'], ['t', 'u', 'a'], ['w', 'a'],
@@ -278,6 +279,21 @@ def run_case(spec):
                              % (name, got, var['unit']))
                     continue
                 d = deq(got.magnitude, want[name], rel=1e-12)
+                if d and isinstance(want[name], (int, float)) and \
+                        isinstance(got.magnitude, (int, float)):
+                    # sums of converted terms that cancel: the tolerance is
+                    # relative to the largest term, not to the (tiny) result
+                    terms = [abs(ref.convert(var['init'],
+                                             var.get('init_unit') or var['unit'],
+                                             var['unit']))]
+                    for upd in spec['batch']:
+                        if name in upd:
+                            e = upd[name]
+                            terms.append(abs(ref.convert(
+                                e['v'], e.get('unit') or var['unit'],
+                                var['unit'])))
+                    if abs(got.magnitude - want[name]) <= 1e-12 * max(terms):
+                        d = None
             else:
                 d = deq(got, want[name])
             if d:
